@@ -31,6 +31,8 @@ typedef struct {
     int marker[2];
     int complete_cb[2];
     uint64_t body_hash[2];
+    uint64_t txh_bytes[2], txh_hash[2];  /* what the transaction-level body hook of each side was handed */
+    int txh_marker[2], txh_reg[2];       /* ... its end-of-body markers; whether it was registered (before that side's body) */
     hx_buf body[2];
     hx_buf files;
     hx_buf events;
@@ -549,15 +551,17 @@ static int cb_tx_res_body(htp_tx_data_t *d);
 
 static int cb_request_headers(htp_tx_t *tx) { COST_PAUSE;
     runctx *x = cur; if (!x) return HTP_OK;
-    on_tx_event(x, HK_REQUEST_HEADERS, tx, 0, RK_HEADERS, 1);
-    if (x->c->cfg[CF_TX_HOOKS] && tx) htp_tx_register_request_body_data(tx, cb_tx_req_body);
+    txrec *t = on_tx_event(x, HK_REQUEST_HEADERS, tx, 0, RK_HEADERS, 1);
+    if (x->c->cfg[CF_TX_HOOKS] && tx && t && !t->txh_reg[0]) { htp_tx_register_request_body_data(tx, cb_tx_req_body); t->txh_reg[0] = (t->body_bytes[0] == 0 && t->marker[0] == 0) ? 2 : 1; }
+    /* CF_TX_HOOKS == 2: the application attaches its response body handler to the transaction while it looks at the request */
+    if (x->c->cfg[CF_TX_HOOKS] == 2 && tx && t && !t->txh_reg[1]) { htp_tx_register_response_body_data(tx, cb_tx_res_body); t->txh_reg[1] = (t->body_bytes[1] == 0 && t->marker[1] == 0) ? 2 : 1; }
     return scripted_rc(x, HK_REQUEST_HEADERS);
 }
 
 static int cb_response_headers(htp_tx_t *tx) { COST_PAUSE;
     runctx *x = cur; if (!x) return HTP_OK;
-    on_tx_event(x, HK_RESPONSE_HEADERS, tx, 1, RK_HEADERS, 1);
-    if (x->c->cfg[CF_TX_HOOKS] && tx) htp_tx_register_response_body_data(tx, cb_tx_res_body);
+    txrec *t = on_tx_event(x, HK_RESPONSE_HEADERS, tx, 1, RK_HEADERS, 1);
+    if (x->c->cfg[CF_TX_HOOKS] && tx && t && !t->txh_reg[1]) { htp_tx_register_response_body_data(tx, cb_tx_res_body); t->txh_reg[1] = (t->body_bytes[1] == 0 && t->marker[1] == 0) ? 2 : 1; }
     return scripted_rc(x, HK_RESPONSE_HEADERS);
 }
 
@@ -584,6 +588,17 @@ static void end_of_side(runctx *x, txrec *t, int side) {
     CHECK(x);
     if (has_body && !coded && !t->marker[side])
         viol(x, "C06", side == 0 ? "req_no_end_marker" : "res_no_end_marker", "tx %d completed a message with a body without an end-of-body marker", t->ord);
+    /* a body callback attached to the transaction before the body began is handed exactly what the configuration-level ones are
+     * (it runs first; when a scripted callback failed the chain was cut short and nothing is compared) */
+    if (t->txh_reg[side] == 2 && !x->cb_failed) {      /* 2: attached before any body data of that side had been delivered */
+        CHECK(x);
+        if (t->txh_bytes[side] != t->body_bytes[side] || t->txh_hash[side] != t->body_hash[side] || (t->marker[side] > 0) != (t->txh_marker[side] > 0)) {
+            char dd[160];
+            snprintf(dd, sizeof dd, "transaction-level hook got %llu bytes / %d end markers, configuration-level hook %llu bytes / %d end markers",
+                     (unsigned long long) t->txh_bytes[side], t->txh_marker[side], (unsigned long long) t->body_bytes[side], t->marker[side]);
+            viol_tx(x, t, "C06", side == 0 ? "req_tx_hook_body_mismatch" : "res_tx_hook_body_mismatch", dd);
+        }
+    }
 }
 
 static int cb_request_complete(htp_tx_t *tx) { COST_PAUSE;
@@ -688,17 +703,29 @@ static int cb_response_header_data(htp_tx_data_t *d) { COST_PAUSE; runctx *x = c
 static int cb_response_trailer_data(htp_tx_data_t *d) { COST_PAUSE; runctx *x = cur; if (!x) return HTP_OK; return data_event(x, HK_RESPONSE_TRAILER_DATA, d, 1, 0); }
 static int cb_response_body_data(htp_tx_data_t *d) { COST_PAUSE; runctx *x = cur; if (!x) return HTP_OK; return data_event(x, HK_RESPONSE_BODY_DATA, d, 1, 1); }
 
-/* tx-level body hooks see the same data as the cfg-level ones; only touch the bytes and count */
+/* tx-level body hooks are body callbacks like the configuration-level ones: what they are handed is accounted the same way and
+ * compared with the configuration-level view when the side completes (end_of_side) */
+static void txh_account(runctx *x, htp_tx_data_t *d, int side) {
+    txrec *t = (d && d->tx) ? tx_find(x, d->tx) : NULL;
+    if (t == NULL) return;
+    if (d->data == NULL && d->len == 0) { t->txh_marker[side]++; return; }
+    t->txh_bytes[side] += d->len;
+    if (d->data != NULL) t->txh_hash[side] = hx_hash(d->data, d->len, t->txh_hash[side]);
+    else t->txh_hash[side] = hx_hash(&d->len, sizeof d->len, t->txh_hash[side] ^ 0x9e37);
+}
+
 static int cb_tx_req_body(htp_tx_data_t *d) { COST_PAUSE;
     runctx *x = cur; if (!x) return HTP_OK;
     if (d && d->data) touch(d->data, d->len, 0);
     if (d && d->tx && tx_find(x, d->tx) == NULL) viol(x, "C01", "unknown_tx_in_callback", "TX_REQUEST_BODY_DATA");
+    txh_account(x, d, 0);
     return scripted_rc(x, HK_TX_REQUEST_BODY_DATA);
 }
 static int cb_tx_res_body(htp_tx_data_t *d) { COST_PAUSE;
     runctx *x = cur; if (!x) return HTP_OK;
     if (d && d->data) touch(d->data, d->len, 0);
     if (d && d->tx && tx_find(x, d->tx) == NULL) viol(x, "C01", "unknown_tx_in_callback", "TX_RESPONSE_BODY_DATA");
+    txh_account(x, d, 1);
     return scripted_rc(x, HK_TX_RESPONSE_BODY_DATA);
 }
 
